@@ -41,6 +41,12 @@ func runC19(c *core.Ctx) {
 				return
 			}
 			name := core.StdCallee(&call.Call)
+			if name == "slices.Sort" || name == "slices.SortFunc" {
+				// the generic sorts of package slices are not stable either
+				nSites++
+				c.Fail("R1", core.FuncName(f)+"/"+name, p.InstrPos(ins), name+" is not a stable sort: records the comparator does not distinguish may change their relative order (only visible beyond 12 elements)")
+				return
+			}
 			if !strings.HasPrefix(name, "sort.") || strings.HasSuffix(name, ".init") {
 				return
 			}
